@@ -57,6 +57,7 @@ type c3arg struct {
 	nums  []uint64
 	align int64 // -1: none
 	ixs   []c3arg
+	kw    int // W<i>: position in the keyword list of the slot; O / O<i>: -1 or the position (optional keyword)
 }
 
 func c3Operand(s string) c3operand {
@@ -194,6 +195,21 @@ func c3Inst(named map[string]*types.StructType, s string) c3inst {
 					}
 					arg.align = k
 				}
+			case 'W':
+				k, err := strconv.Atoi(a[1:])
+				if err != nil {
+					panic("harness: bad keyword position " + a)
+				}
+				arg.kw = k
+			case 'O':
+				arg.kw = -1
+				if len(a) > 1 {
+					k, err := strconv.Atoi(a[1:])
+					if err != nil {
+						panic("harness: bad keyword position " + a)
+					}
+					arg.kw = k
+				}
 			case 'R':
 				if len(a) == 1 {
 					arg.void = true
@@ -213,6 +229,10 @@ var c3Preds = []enum.IPred{enum.IPredEQ, enum.IPredNE, enum.IPredUGT, enum.IPred
 
 var c3FPreds = []enum.FPred{enum.FPredFalse, enum.FPredOEQ, enum.FPredOGT, enum.FPredOGE, enum.FPredOLT, enum.FPredOLE, enum.FPredONE, enum.FPredORD,
 	enum.FPredUEQ, enum.FPredUGT, enum.FPredUGE, enum.FPredULT, enum.FPredULE, enum.FPredUNE, enum.FPredUNO, enum.FPredTrue}
+
+// the atomic orderings in the order of kOrdSp (lean/LlirModel/Core3.lean)
+var c3Orderings = []enum.AtomicOrdering{enum.AtomicOrderingUnordered, enum.AtomicOrderingMonotonic, enum.AtomicOrderingAcquire, enum.AtomicOrderingRelease,
+	enum.AtomicOrderingAcquireRelease, enum.AtomicOrderingSequentiallyConsistent}
 
 var c3FMF = []enum.FastMathFlag{enum.FastMathFlagNNaN, enum.FastMathFlagNInf, enum.FastMathFlagNSZ, enum.FastMathFlagARcp, enum.FastMathFlagContract,
 	enum.FastMathFlagAFn, enum.FastMathFlagReassoc, enum.FastMathFlagFast}
@@ -246,8 +266,32 @@ func c3ApplyFlags(inst interface{}, flags []int) {
 	case *ir.InstAShr:
 		x.Exact = true
 	case *ir.InstStore:
-		x.Volatile = true
+		// kAtomicVolatile: 0 atomic, 1 volatile
+		for _, k := range flags {
+			if k == 0 {
+				x.Atomic = true
+			} else {
+				x.Volatile = true
+			}
+		}
 	case *ir.InstLoad:
+		for _, k := range flags {
+			if k == 0 {
+				x.Atomic = true
+			} else {
+				x.Volatile = true
+			}
+		}
+	case *ir.InstCmpXchg:
+		// kWeakVolatile: 0 weak, 1 volatile
+		for _, k := range flags {
+			if k == 0 {
+				x.Weak = true
+			} else {
+				x.Volatile = true
+			}
+		}
+	case *ir.InstAtomicRMW:
 		x.Volatile = true
 	case *ir.InstGetElementPtr:
 		x.InBounds = true
@@ -501,6 +545,13 @@ func core3Prepare(named map[string]*types.StructType, a []string) (*ir.Func, fun
 				obj = &ir.TermResume{}
 			case in.row == 87:
 				obj = &ir.InstVAArg{ArgType: in.args[1].ty}
+			case in.row == 88:
+				obj = &ir.InstFence{Ordering: c3Orderings[in.args[0].kw]}
+			case in.row == 89:
+				// (the scaffold type of the parser: { T, i1 } with T the type written in front of the new value)
+				obj = &ir.InstCmpXchg{Typ: types.NewStruct(in.args[2].ty, types.I1), SuccessOrdering: c3Orderings[in.args[3].kw], FailureOrdering: c3Orderings[in.args[4].kw]}
+			case in.row == 90:
+				obj = &ir.InstAtomicRMW{Op: enum.AtomicOp(in.args[0].kw + 1), Typ: in.args[1].ty.(*types.PointerType).ElemType, Ordering: c3Orderings[in.args[3].kw]}
 			default:
 				panic("harness: bad row")
 			}
@@ -560,13 +611,30 @@ func core3Prepare(named map[string]*types.StructType, a []string) (*ir.Func, fun
 			case *ir.InstLoad:
 				x.ElemType = as[0].ty
 				x.Src = operand(as[1].ty, as[1].op)
-				if as[2].align >= 0 {
-					x.Align = ir.Align(as[2].align)
+				if as[2].kw >= 0 {
+					x.Ordering = c3Orderings[as[2].kw]
+				}
+				if as[3].align >= 0 {
+					x.Align = ir.Align(as[3].align)
 				}
 			case *ir.InstStore:
 				x.Src, x.Dst = operand(as[0].ty, as[0].op), operand(as[1].ty, as[1].op)
-				if as[2].align >= 0 {
-					x.Align = ir.Align(as[2].align)
+				if as[2].kw >= 0 {
+					x.Ordering = c3Orderings[as[2].kw]
+				}
+				if as[3].align >= 0 {
+					x.Align = ir.Align(as[3].align)
+				}
+			case *ir.InstFence:
+			case *ir.InstCmpXchg:
+				x.Ptr, x.Cmp, x.New = operand(as[0].ty, as[0].op), operand(as[1].ty, as[1].op), operand(as[2].ty, as[2].op)
+				if as[5].align >= 0 {
+					x.Align = ir.Align(as[5].align)
+				}
+			case *ir.InstAtomicRMW:
+				x.Dst, x.X = operand(as[1].ty, as[1].op), operand(as[2].ty, as[2].op)
+				if as[4].align >= 0 {
+					x.Align = ir.Align(as[4].align)
 				}
 			case *ir.InstGetElementPtr:
 				x.Src = operand(as[1].ty, as[1].op)
